@@ -146,8 +146,8 @@ class C02(Check):
         L4 = [('name', 'a'), ('name', 'b'), ('num', '2'), ('ext', 'k')]
         for ops in (['+'] * 12, ['+', '-', '*'] * 5, ['*', '+'] * 7, ['-'] * 11 + ['<']):
             for asg in (None, 'r', 'a'):
-                js.append(dict(kind='expr', tree=tojson(chain(ops, L4)), n=2, nan=False, assign=asg, minimal=True))
-        js.append(dict(kind='expr', tree=tojson(('fun', 'SUM', chain(['+'] * 11, [('name', 'a'), ('name', 'b')]))), n=2, nan=False, assign=None, minimal=True))
+                js.append(dict(kind='expr', tree=tojson(chain(ops, L4)), n=2, nan=False, assign=asg, minimal=True, probe=True))
+        js.append(dict(kind='expr', tree=tojson(('fun', 'SUM', chain(['+'] * 11, [('name', 'a'), ('name', 'b')]))), n=2, nan=False, assign=None, minimal=True, probe=True))
 
         def rchain(ops, leaves):      # right-nested: the left operand's intermediate result waits while the right one is evaluated
             t = leaves[-1]
@@ -155,10 +155,10 @@ class C02(Check):
                 t = ('bin', op, leaves[i % len(leaves)], t)
             return t
         for asg in (None, 'r'):
-            js.append(dict(kind='expr', tree=tojson(('bin', '+', ('bin', '*', ('name', 'a'), ('num', '2')), chain(['+'] * 9, [('name', 'b'), ('num', '2')]))), n=2, nan=False, assign=asg, minimal=True))
-            js.append(dict(kind='expr', tree=tojson(rchain(['+', '-', '*'] * 4, L4)), n=2, nan=False, assign=asg, minimal=True))
+            js.append(dict(kind='expr', tree=tojson(('bin', '+', ('bin', '*', ('name', 'a'), ('num', '2')), chain(['+'] * 9, [('name', 'b'), ('num', '2')]))), n=2, nan=False, assign=asg, minimal=True, probe=True))
+            js.append(dict(kind='expr', tree=tojson(rchain(['+', '-', '*'] * 4, L4)), n=2, nan=False, assign=asg, minimal=True, probe=True))
             for f in ('AVG', 'SUM', 'MAX', 'MEDIAN'):     # an aggregate evaluated late in a long expression
-                js.append(dict(kind='expr', tree=tojson(('bin', '+', chain(['+'] * 9, [('name', 'a'), ('num', '2')]), ('fun', f, ('name', 'b')))), n=2, nan=False, assign=asg, minimal=True))
+                js.append(dict(kind='expr', tree=tojson(('bin', '+', chain(['+'] * 9, [('name', 'a'), ('num', '2')]), ('fun', f, ('name', 'b')))), n=2, nan=False, assign=asg, minimal=True, probe=True))
         # scale probes: long tracks (aggregates and series functions over 17 / 33 observations, NaN through D{})
         for n in (17, 33):
             for f in aflib.AGGREGATES:
@@ -175,6 +175,7 @@ class C02(Check):
             cnt += 1
             js.append(dict(kind='expr', tree=tojson(t), n=2 if rng.random() < 0.7 else 3, nan=rng.random() < 0.15,
                            assign=rng.choice([None, None, 'r', 'a']), minimal=rng.random() < 0.7))
+        js.sort(key=lambda j: 0 if (j.get('long') or j.get('probe')) else 1)      # scale probes first (stable): the enumerations below may run into the budget
         return js
 
     def patches(self, job):
